@@ -1,11 +1,11 @@
 (* C05 - what emit() (emitter.py 2450-3165) makes of the split program, as an abstract
    event trace: device configuration hoisted to the top of setup(), configuration emitted
    in place, the statements of setup(), then N passes of loop() each starting with the
-   injected housekeeping.  Also: the [break] guard of _parse_simple_lines, the C lifetime
-   of variables (globals persist, locals of loop() are re-created every pass, names promoted
-   out of a block are re-initialised at the head of that block), the reference (CPython)
-   execution of the same items, and the temporal monitors that the harness also runs
-   (extracted) on real firmware traces.
+   injected housekeeping.  Also: the [break] guard of _parse_simple_lines, parse()'s rejection of
+   top-level statements after the main loop, the C lifetime of variables (every assigned name is a
+   sketch global - also one first assigned inside [while True:] or promoted out of a block - so
+   nothing is re-created or re-initialised), the reference (CPython) execution of the same items,
+   and the temporal monitors that the harness also runs (extracted) on real firmware traces.
    No proofs in this file. *)
 From Coq Require Import ZArith List Bool.
 From RV Require Import Lang.Split.
@@ -258,7 +258,26 @@ Definition item_ok (it : item) : bool :=
   end.
 
 (* parse() does not raise "cannot break out of the main loop()" / "'break' outside loop" *)
-Definition transl_ok (its : list item) : bool := forallb item_ok its.
+Definition breaks_ok (its : list item) : bool := forallb item_ok its.
+
+(* one main loop, and it is the last top-level item: parse() raises "statements after the main loop are
+   unreachable" for ANY top-level statement (another [while True:], a def, a plain statement) after the first
+   column-0 [while True:] block *)
+Definition is_main (it : item) : bool := match it with IMainLoop _ => true | _ => false end.
+Definition no_main (its : list item) : bool := forallb (fun it => negb (is_main it)) its.
+
+Fixpoint main_last (its : list item) : bool :=
+  match its with
+  | [] => true
+  | [IMainLoop _] => true
+  | it :: r => negb (is_main it) && main_last r
+  end.
+
+(* no [while True:] at all, or exactly one and nothing after it *)
+Definition one_main_last (its : list item) : bool := main_last its.
+
+(* parse() accepts the program *)
+Definition transl_ok (its : list item) : bool := breaks_ok its && one_main_last its.
 
 (* ------------------------------------------------------------------ variable store *)
 Record vstate := mkV { v_vars : list (name * Z); v_undef : bool }.
@@ -294,15 +313,18 @@ Definition eval (e : rhs) (vs : vstate) : Z * vstate :=
 (* [T x = <default>;] for each promoted name *)
 Definition reset (nn : list name) (vs : vstate) : vstate := fold_left (fun s x => vwrite x 0 s) nn vs.
 
-(* locals of loop() go out of scope at the end of a pass *)
+(* locals of loop() go out of scope at the end of a pass (there are none: [Split.classify]) *)
 Definition drop (nn : list name) (vs : vstate) : vstate :=
   mkV (filter (fun kv => negb (mem_name (fst kv) nn)) (v_vars vs)) (v_undef vs).
 
 (* ------------------------------------------------------------------ statements *)
 Inductive mode := MPy | MC.      (* reference CPython execution | the emitted C++ *)
 
-Definition resets_here (m : mode) (top in_setup : bool) : bool :=
-  match m with MPy => false | MC => negb (top && in_setup) end.
+(* The emitted C++ re-initialises nothing: the declaration promoted out of a block is a sketch global at setup depth 0
+   and at the body level of the main loop, and the default-initialised [VarDecl(hoisted)] of a deeper level is dropped
+   by the enclosing block's rewrite (it used to become [x = <default>;] at the head of the block).  The two modes now
+   run the same statements; the parameter stays because the theorems are equations between the two. *)
+Definition resets_here (m : mode) (top in_setup : bool) : bool := false.
 
 (* a nested [while x:] is run for at most [while_fuel] iterations; a run that needs more is outside the model
    (sticky flag, as for a read of an unbound name) *)
@@ -310,7 +332,7 @@ Definition while_fuel : nat := 64.
 
 Definition out_of_fuel (vs : vstate) : vstate := mkV (v_vars vs) true.
 
-(* [T x = <default>;] in front of a block for the names promoted out of it (not at setup depth 0: globals) *)
+(* [T x = <default>;] in front of a block for the names promoted out of it: nowhere ([resets_here]) *)
 Definition pre_reset (m : mode) (top in_setup : bool) (declared : list name) (nn : list name) (vs : vstate) : vstate :=
   if resets_here m top in_setup then reset (fresh declared nn) vs else vs.
 
@@ -732,81 +754,7 @@ Definition tick_list (p : program) : list name :=
   flat_map (fun l => repeat l (anim_count p l)) (p_ticks p).
 
 (* ------------------------------------------------------------------ guards *)
-(* (1) variable lifetime: no name is first assigned inside [while True:] and no block
-       below setup depth 0 introduces a name *)
-Definition no_fresh (top in_setup : bool) (declared : list name) (nn : list name) : bool :=
-  (top && in_setup) || match fresh declared nn with [] => true | _ => false end.
-
-Fixpoint no_intro (top in_setup : bool) (declared : list name) (s : stmt) : bool :=
-  let blk := fix go (d : list name) (l : list stmt) : bool :=
-               match l with
-               | [] => true
-               | s1 :: r => no_intro false in_setup d s1 && go (d ++ assigned_stmt s1) r
-               end in
-  match s with
-  | SIf _ body els => no_fresh top in_setup declared (assigned_stmt s) && blk declared body && blk declared els
-  | SFor _ body => no_fresh top in_setup declared (assigned_stmt s) && blk declared body
-  | SWhile _ body => no_fresh top in_setup declared (assigned_stmt s) && blk declared body
-  | STry body h => no_fresh top in_setup declared (assigned_stmt s) && blk declared body && blk declared h
-  | _ => true
-  end.
-
-Definition no_intro_ann (in_setup : bool) (l : list (list name * stmt)) : bool :=
-  forallb (fun ds => no_intro true in_setup (fst ds) (snd ds)) l.
-
-Definition vars_persist (its : list item) : bool :=
-  let p := transl its in
-  match p_locals p with [] => true | _ => false end &&
-  no_intro_ann true (p_setup p) && no_intro_ann false (p_loop p).
-
-(* (1') weaker: names first assigned inside [while True:] are allowed when they are assigned by a
-       top-level statement of the body before anything reads them in that pass (then the fresh C++
-       local of every pass is indistinguishable from Python's persisting variable); blocks still may
-       not introduce names *)
-Definition reads_rhs (e : rhs) : list name := match e with RConst _ => [] | RAdd y _ => [y] end.
-
-Fixpoint reads_stmt (s : stmt) : list name :=
-  match s with
-  | SSet _ e => reads_rhs e
-  | SShow _ x => [x]
-  | SIf x b e => x :: flat_map reads_stmt b ++ flat_map reads_stmt e
-  | SFor _ b => flat_map reads_stmt b
-  | SWhile x b => x :: flat_map reads_stmt b
-  | STry b h => flat_map reads_stmt b ++ flat_map reads_stmt h
-  | _ => []
-  end.
-
-Definition top_assign (s : stmt) : list name := match s with SSet x _ => [x] | _ => [] end.
-
-(* y is a global, or a local of loop() already assigned in this pass *)
-Definition known_var (locals A : list name) (y : name) : bool := negb (mem_name y locals) || mem_name y A.
-
-Fixpoint da_list (locals A : list name) (l : list stmt) : bool :=
-  match l with
-  | [] => true
-  | s :: r => forallb (known_var locals A) (reads_stmt s) && da_list locals (top_assign s ++ A) r
-  end.
-
-Definition vars_ok (its : list item) : bool :=
-  let p := transl its in
-  no_intro_ann true (p_setup p) && no_intro_ann false (p_loop p) &&
-  da_list (p_locals p) [] (map snd (p_loop p)).
-
-(* (2) one main loop, and it is the last top-level item *)
-Definition is_main (it : item) : bool := match it with IMainLoop _ => true | _ => false end.
-Definition no_main (its : list item) : bool := forallb (fun it => negb (is_main it)) its.
-
-Fixpoint main_last (its : list item) : bool :=
-  match its with
-  | [] => true
-  | [IMainLoop _] => true
-  | it :: r => negb (is_main it) && main_last r
-  end.
-
-(* no [while True:] at all, or exactly one and nothing after it *)
-Definition one_main_last (its : list item) : bool := main_last its.
-
-(* (3) device placement *)
+(* device placement *)
 Definition flat_stmt (s : stmt) : bool :=
   match s with SIf _ _ _ | SFor _ _ | SWhile _ _ | STry _ _ => false | _ => true end.
 
